@@ -121,6 +121,8 @@ def gen_C07(rnd, n, tier):
             if rnd.random() < 0.6: widths[ch] = rnd.randint(0, 9)
         for c in CODES:
             if rnd.random() < 0.6: widths[c] = rnd.randint(0, 40)
+        if rnd.random() < 0.3:      # entries for character PAIRS (the shipped table has "LV"): never used for the letters of a word
+            for _ in range(rnd.randint(1, 3)): widths[rnd.choice(ALPH) + rnd.choice(ALPH)] = rnd.choice([0, 1, 2, 30])
         text = gen_fmt_text(rnd)
         if i % 97 == 5: text = "aa \\\\n bb"          # the recorded finding F15, kept in the stream
         mx = rnd.choice([0, 10, 20, 35, 50, 80]); ov = rnd.choice([0, 0, 5, 10, 30]); nl = rnd.choice([1, 2, 2, 3])
@@ -254,6 +256,12 @@ def gen_C17(rnd, n, tier):
         if names and rnd.random() < 0.6:
             other = rnd.choice(names); bait = "%s_%d" % (other, rnd.randint(1, 6))
             srcs.insert(rnd.randint(0, len(srcs)), "script Bait%d {\n  lock\n%s:\n  release\n}\n" % (i, bait))
+        if len(names) >= 2 and rnd.random() < 0.4:
+            # ... ends in a goto to the script that happens to follow it
+            for k in range(len(srcs) - 1):
+                m1 = re.match(r"script(\([a-z]+\))? (\w+) \{", srcs[k]); m2 = re.match(r"script(\([a-z]+\))? (\w+) \{", srcs[k + 1])
+                if m1 and m2 and srcs[k].rstrip().endswith("}"):
+                    srcs[k] = srcs[k].rstrip()[:-1] + "  goto(%s)\n}\n" % m2.group(2); break
         cfg = base_cfg(optimize=rnd.random() < 0.5)
         whole = "\n".join(srcs)
         indep.append(Case(compile_line(cfg, whole), whole, cfg, {"indep": i, "role": "whole"}))
@@ -321,7 +329,7 @@ def oracle_C17_all(cases, rawresults):
     return None
 
 # ---------------- C18 ----------------
-JUNK = ["٣", "１２", "x٣", "x", "(", ")", "{", "}", "&&", "||", "!", "==", ",", ":", "*", "0", '"s"', "if", "case", "default", "poryswitch", "format", "moves", "`r`", "€", "&", "\u0000", "�", "[", "]", "value", "var", "flag"]
+JUNK = ["'", "~", "٣", "１２", "x٣", "x", "(", ")", "{", "}", "&&", "||", "!", "==", ",", ":", "*", "0", '"s"', "if", "case", "default", "poryswitch", "format", "moves", "`r`", "€", "&", "\u0000", "�", "[", "]", "value", "var", "flag"]
 
 def mutate(src, rnd):
     from gen import TOKEN_RE
@@ -371,6 +379,7 @@ def gen_C18(rnd, n, tier):
                               "script Idle {\n while {\n  w\n  if (flag(D)) {\n   break\n  }\n }\n}\nscript Other {\n lock\n if (flag(A)) {\n  continue\n }\n}",
                               "script A { while { while { break } break } if (flag(F)) { break } }", "script A { do { switch (var(V)) { case 1: continue } } while (flag(F)) continue }",
                               'text T { ascii"\\0" }', 'script S { debugprint(ascii"\\\\\\0") msgbox("$") msgbox(braille"$") }', 'text T { ascii"\\\\\\\\\\0" }\ntext U { "$" }\ntext V { format(ascii"\\0") }', 'text T { "\\" }\ntext U { ascii"\\" }',
+                              "script S {\n\tlock\n}'\n", "script S {\n\tlock\n'}", "script S { a('x') }'", "'", "''", "'a", "a'b'",
                               "script S { switch (var(V)) { case 1:\n case 2", "script S { switch (var(V)) { case", "script S { switch (var(V)) { case 1 2 3", "script S { switch (var(V)) { default", "script S { applymovement(0, moves()) }", "script S { applymovement(0, moves( poryswitch(V) { A: walk_up } )) }"])
         elif x < 0.7:
             from cases_data import Pory
@@ -423,7 +432,7 @@ def oracle_C18_pair(cn, rn, cl, rl):
 IDENTS = ["foo", "é", "naïve_1", "_x", "script", "if", "TRUE", "value", "ünï", "𝒳x", "VAR_𝒳"]
 NUMS = ["0", "7", "42", "-3", "0x1F", "007", "0x", "0x1f", "0xdeadBEEF", "0xa", "-0", "٣٤", "1２"]
 PUNCT = ["(", ")", "{", "}", "[", "]", ",", ":", "*", "=", "==", "!=", "!", "<", "<=", ">", ">=", "&&", "||"]
-ILLEGAL = ["+", "€", "&", "|", "-", "@", "/", "😀"]
+ILLEGAL = ["+", "€", "&", "|", "-", "@", "/", "😀", "'", "~", "“", "×"]
 STRS = ['"hi"', '"héllo wörld"', '""', '"a\\pb$"', '"𠮷野$"', '"😀 ok"']
 TYPED = ['ascii"x"', 'braille"é"']
 RAW = ['`raw é\n  text`', '``', '`.byte 0`', '`é € x`']
@@ -499,7 +508,14 @@ def gen_C19(rnd, n, tier):
     ls = [("id", "lock"), ("id", "foo")]
     out.append(Case(lex_line("lock # c \x00 bar\nfoo"), "lock # c \x00 bar\nfoo", None, {"ls": ls, "offs": [0, 15]}, group="F16"))
     out.append(Case(lex_line("lock foo"), "lock foo", None, {"ls": ls, "offs": [0, 5]}, group="F16"))
-    # compiled output is layout independent
+    # compiled output is layout independent: operator characters that touch or not, values continued on the next line
+    LAY = [["script S { setvar(VAR_MASK, FLAG_A|~FLAG_B) setvar(V, BASE--OFFSET, X<-1) }", "script S { setvar(VAR_MASK, FLAG_A | ~ FLAG_B) setvar(V, BASE - -OFFSET, X < -1) }", "script S {\n setvar(VAR_MASK, FLAG_A |// c\n ~FLAG_B)\n setvar(V, BASE -\n -OFFSET, X <\n-1) }"],
+           ["const T = W * H\nconst U = A < B > C\nscript S { setvar(V, T, U) }", "const T = W *\n   H\nconst U = A <\n B >\n C\nscript S { setvar(V, T, U) }", "const T = W\n * H\nconst U = A\n  < B\n  > C\nscript S { setvar(V, T, U) }", "const T = W * // c\n H\r\nconst U = A < B\r\n > C\r\nscript S { setvar(V, T, U) }"],
+           ["const N = 5\nconst M = N -\n 1\nscript S { if (var(A) == M) { x } }", "const N = 5 const M = N - 1 script S { if (var(A) == M) { x } }"],
+           ["script S { msgbox(\"a \" \"b\") msgbox(\"x\"\n \"y\") }", "script S {\n msgbox(\"a \"   \"b\")\n msgbox(\"x\" \"y\") }"]]
+    for q, grp in enumerate(LAY):
+        cfg = base_cfg(optimize=(q % 2 == 0))
+        for k, sq in enumerate(grp): out.append(Case(compile_line(cfg, sq), sq, cfg, {"layout": k}, group=("lay", q)))
     for i in range(max(10, n // 10)):
         tg = TopGen(rnd, tier); src0 = tg.gen(rnd.randint(1, 3))
         cfg = base_cfg(optimize=rnd.random() < 0.5)
